@@ -116,7 +116,11 @@ def points_for_polygon(pn, xy, size):
             kinds[i] = 1
         elif t < 0.9:
             v = xy[int(u[i, 4] * m) % m]
-            P[i, int(u[i, 5] * 2) % 2] = v[int(u[i, 5] * 2) % 2]
+            k = int(u[i, 5] * 2) % 2
+            P[i, k] = v[k]
+            if u[i, 0] < 0.3:
+                # aligned with a vertex but beyond the bounding box in the other coordinate
+                P[i, 1 - k] = c[1 - k] + (1.2 + 0.6 * u[i, 1]) * h[1 - k] * (1 if u[i, 2] < 0.5 else -1)
             kinds[i] = 2
         else:
             v = xy[int(u[i, 4] * m) % m]
